@@ -170,6 +170,13 @@ stpeip = "stpeip" #stop eip
 
 rep_mov_cmp =     [ 'movsb', 'movsw', 'movsd', 'cmpsb', 'cmpsw', 'cmpsd' ]
 rep_sto_lod_sca = [ 'stosb', 'stosd', 'stosw', 'lodsb', 'lodsd', 'lodsw', 'scasb', 'scasd', 'scasw', ]
+# instructions whose ModRM operand must be memory (mod == 3 is another
+# instruction or undefined)
+mnemo_mem_only = ['sgdt', 'sidt', 'lgdt', 'lidt', 'invlpg', 'cmpxchg8b',
+                  'prefetchnta', 'prefetcht0', 'prefetcht1', 'prefetcht2',
+                  'prefetchw', 'ldmxcsr', 'stmxcsr',
+                  'lea', 'lds', 'les', 'lss', 'lfs', 'lgs', 'bound',
+                  ]
 mnemo_prefetch = ['prefetcht0', 'prefetcht1', 'prefetcht2', 'prefetchnta', 'prefetchw', 'cmpxchg8b']
 mnemo_sse_cmp_predicate = ['eq','lt','le','unord','neq','nlt','nle','ord']
 mnemo_sse_cmp = ['cmp'+predicate+suffix
@@ -2449,6 +2456,8 @@ class x86_mn(x86_mn_base):
                     # x87 /digit rows are the memory forms; the register
                     # encodings (mod == 3) have their own rows
                     return None
+                if m.name in mnemo_mem_only and modr[x86_afs.ad] == False:
+                    return None
             #+reg
             elif afs == reg:
                 mafs = dict(x86mndb.get_afs_re(c&(0xFF^mask_reg)))
@@ -2568,6 +2577,8 @@ class x86_mn(x86_mn_base):
                         # segment register numbers 6 and 7 do not exist
                         return None
                     re, modr = x86mndb.get_afs(bin, c, self.admode)
+                    if m.name in mnemo_mem_only and modr[x86_afs.ad] == False:
+                        return None
                     mafs = dict(x86mndb.get_afs_re(re+reg_cat))
                     if m.modifs[w8]:
                         modr[x86_afs.size] = x86_afs.u08
